@@ -26,7 +26,7 @@ type C14Case struct {
 	Procs    int     `json:"procs"`
 	Seed     uint64  `json:"seed"`
 	DrawMain bool    `json:"drawmain,omitempty"`
-	Late     int     `json:"late,omitempty"` // a goroutine that registers this many cleanups while the cleanups of the test case are running
+	Late     int     `json:"late,omitempty"`    // a goroutine that registers this many cleanups while the cleanups of the test case are running
 	LateCtx  bool    `json:"latectx,omitempty"` // ... and asks for the context then: the property function has returned, so it must be a cancelled one
 }
 
